@@ -33,19 +33,19 @@ type vVecField struct {
 	sim  string
 }
 
-func (s *vVecField) Name() string                                { return s.name }
-func (s *vVecField) Value() []byte                               { return nil }
-func (s *vVecField) ArrayPositions() []uint64                    { return nil }
-func (s *vVecField) EncodedFieldType() byte                      { return 'v' }
-func (s *vVecField) Analyze()                                    {}
-func (s *vVecField) Options() index.FieldIndexingOptions         { return index.IndexField }
-func (s *vVecField) AnalyzedLength() int                         { return 0 }
+func (s *vVecField) Name() string                                     { return s.name }
+func (s *vVecField) Value() []byte                                    { return nil }
+func (s *vVecField) ArrayPositions() []uint64                         { return nil }
+func (s *vVecField) EncodedFieldType() byte                           { return 'v' }
+func (s *vVecField) Analyze()                                         {}
+func (s *vVecField) Options() index.FieldIndexingOptions              { return index.IndexField }
+func (s *vVecField) AnalyzedLength() int                              { return 0 }
 func (s *vVecField) AnalyzedTokenFrequencies() index.TokenFrequencies { return nil }
-func (s *vVecField) NumPlainTextBytes() uint64                   { return 0 }
-func (s *vVecField) Vector() []float32                           { return s.vec }
-func (s *vVecField) Dims() int                                   { return len(s.vec) }
-func (s *vVecField) Similarity() string                          { return s.sim }
-func (s *vVecField) IndexOptimizedFor() string                   { return index.IndexOptimizedForRecall }
+func (s *vVecField) NumPlainTextBytes() uint64                        { return 0 }
+func (s *vVecField) Vector() []float32                                { return s.vec }
+func (s *vVecField) Dims() int                                        { return len(s.vec) }
+func (s *vVecField) Similarity() string                               { return s.sim }
+func (s *vVecField) IndexOptimizedFor() string                        { return index.IndexOptimizedForRecall }
 
 // vCatalogue: concrete 2-dimensional vectors with a duplicate and ties (unit vectors, so that cosine = dot product).
 var vCatalogue = [][]float32{{1, 0}, {0, 1}, {1, 0}, {-1, 0}, {0.6, 0.8}}
@@ -196,9 +196,11 @@ var vSims = []string{index.EuclideanDistance, index.InnerProduct, index.CosineSi
 
 type vStatsSink struct{ n map[string]uint64 }
 
-func (s *vStatsSink) Store(statName, fieldName string, value uint64) { s.n[statName+"/"+fieldName] = value }
-func (s *vStatsSink) Aggregate(stats segment.FieldStats)           {}
-func (s *vStatsSink) Fetch() map[string]map[string]uint64            { return nil }
+func (s *vStatsSink) Store(statName, fieldName string, value uint64) {
+	s.n[statName+"/"+fieldName] = value
+}
+func (s *vStatsSink) Aggregate(stats segment.FieldStats)  {}
+func (s *vStatsSink) Fetch() map[string]map[string]uint64 { return nil }
 
 // H14_search: vector search against the exact stand-in engine.
 func H14_search() {
